@@ -164,8 +164,17 @@ Section Node.
     agg_partial s r p sg.
 
   (* ---- broadcastNextPartial ---- *)
+  (* the round a tick / woken sleeper would sign, and its previous signature *)
+  Definition sign_target (cur : Z) (upon : beacon) : Z * Z :=
+    if cur =? b_round upon then (cur, b_prev upon) else (b_round upon + 1, b_sig upon).
+  (* a partial is only released for a round whose time has come on the node's own clock
+     (h.ticker.CurrentRound()): neither a tick handled late nor a chain ahead of the clock makes the
+     node sign early *)
+  Definition may_sign (s : nstate) (r : Z) : bool :=
+    r <=? current_round (s_now s) (c_period C) (c_genesis C).
   Definition emit_on (s : nstate) (cur : Z) (upon : beacon) : nstate * list out :=
-    let '(r, p) := if cur =? b_round upon then (cur, b_prev upon) else (b_round upon + 1, b_sig upon) in
+    let '(r, p) := sign_target cur upon in
+    if negb (may_sign s r) then (s, []) else
     let sg := own_psig (g_poly (s_grp s)) r p in
     let '(s1, o) := agg_partial s r p sg in
     (s1, OEmit r p sg (s_now s) :: o).
@@ -229,9 +238,10 @@ Section Node.
         if negb (s_running s) then (s, []) else
         let hd := head s in
         let s0 := mkS (s_now s) (s_chain s) (s_cache s) rho (s_timers s) (s_grp s) (s_pending s) (s_running s) in
-        let '(r, p) := if rho =? b_round hd then (rho, b_prev hd) else (b_round hd + 1, b_sig hd) in
+        let '(r, p) := sign_target rho hd in
         let sg := own_psig (g_poly (s_grp s0)) r p in
         let '(s1, o1) := if b_round hd + 1 <? rho then do_sync s0 rho sync else (s0, []) in
+        if negb (may_sign s0 r) then (s1, o1) else
         let '(s2, o2) := agg_partial s1 r p sg in
         (s2, OEmit r p sg (s_now s) :: o1 ++ o2)
     | EPart r p sg =>
